@@ -232,7 +232,7 @@ def _joined(arg: Term, sep_owner: Term) -> "list[tuple[str, Term]] | None":
             if sub is None:
                 return None
             out += sub
-        elif x[0] == "slice":
+        elif x[0] == "slice" and is_const(x[4], None) and is_const(x[2], None) and is_const(x[3], -1):
             sub = _joined(x, sep_owner)
             if sub is None:
                 return None
